@@ -113,7 +113,9 @@ func (o *orC11) onZK(e *ZKEvent) {
 		if osv == nil || nsv == nil {
 			return
 		}
-		confirmed := osv.Up && osv.HasChannel && osv.Source == newM && osv.LastSQLErrno == 0 && (osv.LastIOErrno == 0 || osv.LastIOErrno == 2003) && osv.Executed.SubsetOf(nsv.Holds())
+		// a clean replica: replicating (from the new master or, after an earlier attempt of the same
+		// request, still from another member), no applier error, nothing the new master lacks
+		confirmed := osv.Up && osv.HasChannel && (m.isHA(osv.Source) || m.isCascade(osv.Source)) && osv.Source != old && osv.LastSQLErrno == 0 && (osv.LastIOErrno == 0 || osv.LastIOErrno == 2003) && osv.Executed.SubsetOf(nsv.Holds())
 		if !confirmed {
 			m.probe("c11_old_master_not_confirmed_clean")
 			// observed-in-window rule: the scenario changed the old master during this very
